@@ -301,6 +301,7 @@ def pipe_in_families(pools=(1,)):
         out.append(make('PI_sender_vs_D_p%d' % p, 1, p, 0, [PI(1, 1), D(1), S(1)], [SEND(1, 1), SEND(1, 2), CLOSE(1)], pipes=1))
         out.append(make('PI_burst_T_p%d' % p, 1, p, 0, [PI(1, 1), SEND(1, 1), SEND(1, 2), SEND(1, 3)], [T(1), S(1)], pipes=1))
         out.append(make('PI_drop_vs_send_p%d' % p, 1, p, 0, [PI(1, 1), SEND(1, 1), DROP(1)], [SEND(1, 2), CLOSE(1)], pipes=1))
+    out.append(make('PI_procgate_p1', 1, 1, 1, [PI(1, 1, g=1), SEND(1, 1), SEND(1, 2), S(1)], [FIRE(1)], pipes=1))
     out.append(make('PI_p0_sync_drives', 1, 0, 0, [PI(1, 1), SEND(1, 1), S(1), CLOSE(1), S(1)], pipes=1))
     return out
 
@@ -313,6 +314,7 @@ def pipe_families(pools=(1,)):
         out.append(make('P_depth1_bp_p%d' % p, 1, p, 0, [P(1, 1), DEPTH(1, 1), SEND(1, 1), SEND(1, 2), NEXT(1), NEXT(1)], pipes=1))
         out.append(make('P_depth1_cons_vs_feeder_p%d' % p, 1, p, 0, [P(1, 1), DEPTH(1, 1), NEXT(1), NEXT(1), NEXT(1)], [SEND(1, 1), SEND(1, 2), CLOSE(1)], pipes=1))
         out.append(make('P_feed_vs_SD_p%d' % p, 1, p, 0, [P(1, 1), SEND(1, 1), SEND(1, 2), CLOSE(1)], [S(1), D(1)], pipes=1))
+        out.append(make('P_procgate_p%d' % p, 1, p, 1, [P(1, 1, g=1), SEND(1, 1), NEXT(1)], [FIRE(1)], [S(1)], pipes=1))
     return out
 
 
@@ -324,6 +326,7 @@ def pipe_drop_families(pools=(1,)):
         out.append(make('P_dropstream_vs_send_p%d' % p, 1, p, 0, [P(1, 1), DS(1)], [SEND(1, 1), SEND(1, 2)], pipes=1))
         out.append(make('P_bp_dropstream_p%d' % p, 1, p, 0, [P(1, 1), DEPTH(1, 1), SEND(1, 1), SEND(1, 2), DS(1), DROP(1)], pipes=1))
         out.append(make('P_send_next_dropstream_p%d' % p, 1, p, 0, [P(1, 1), SEND(1, 1), NEXT(1), SEND(1, 2), DS(1)], [S(1)], pipes=1))
+        out.append(make('P_procgate_dropstream_p%d' % p, 1, p, 1, [P(1, 1, g=1), SEND(1, 1), DS(1)], [FIRE(1)], pipes=1))
     return out
 
 
